@@ -48,6 +48,13 @@ CHECKS["C14"] = dict(category="model_checking", technique="TLA+ E57Meta: exact b
 CHECKS["C18"] = dict(category="model_checking", technique="TLA+ E57Meta schema table drives exhaustive foreign-element insertions; TLC trace validation requires report = un-extended scene",
    text="The schema table of the specification (printed by TLC) yields, for every element outside a prototype, every standard child name; each is inserted as a foreign-namespace element of the same type with plausible content (plus fresh names, nested structures) at the first/last (quick) or every (thorough) child index of the fully populated base file through finalize_customized_xml; foreign attributes on every element; extension records with standard local names in prototypes. TLC requires the reader's report, points and blobs to equal the un-extended scene.",
    note=FILE_NOTE, ref="6 C18")
+SIMPLE_NOTE = "Trusts TLC, the Simple specification, the harness's mechanical projection of numbers onto exact grids (1/1024, quarter turns, 1/4, 1/65536). Restricted to inputs on which the documented function is exactly computable with integers; floating-point accuracy on arbitrary operands is not decided."
+CHECKS["C05"] = dict(category="model_checking", technique="TLA+ Simple.View (exact integer arithmetic) checked by TLC trace validation against the real simple and raw iterators for all 64 option vectors",
+   text="Files with every attribute subset (Cartesian/spherical/both, with/without invalid-state records, colour, intensity, row/column), data types single/double/scaled integer, all 9 invalid-state patterns and signed-permutation poses are read with both iterators under all 2^6 option vectors; TLC recomputes every delivered point from the raw values with Simple.View (validity, scaled integers, presence rules, spherical->Cartesian, Cartesian->spherical on axis-aligned vectors, grey from intensity, pose on valid Cartesian only, option independence by construction) and requires equality, same count and order, failure only where allowed.",
+   note=SIMPLE_NOTE, ref="6 C05")
+CHECKS["C13"] = dict(category="model_checking", technique="TLA+ Simple.NormOk (exact rational on integer grids) checked by TLC trace validation over value sweeps",
+   text="For every attribute data type (integer incl. degenerate and full range, scaled integer, single/double declared and undeclared) x limit settings (absent, partial, equal, type-mismatched, extreme, reset) x both switches, value sweeps (every integer of small ranges, lattice points) are read with the simple iterator; TLC requires (v-min)/(max-min) within one 1/65536 unit, clamped, 0 at min, 1 at max, 0 for degenerate ranges, never NaN/inf, monotone; unnormalised values unchanged.",
+   note=SIMPLE_NOTE + " Limits of mixed kinds and overridden scaled-integer limits are unspecified by the statement (type range used).", ref="6 C13")
 NOT_APPLICABLE = {}
 
 def main():
